@@ -73,6 +73,7 @@ func main() {
 	defer drv.Close()
 	runLibraryTies(f, res, drv)
 	runWrites(f, res, drv)
+	runSequences(f, res, drv)
 	if err := res.Write(f.Out); err != nil {
 		lib.Fatal(err)
 	}
@@ -84,6 +85,10 @@ func replay(f lib.Flags) int {
 		lib.Fatal(err)
 	}
 	b, _ := json.Marshal(rp.Input)
+	var sc scase
+	if err := json.Unmarshal(b, &sc); err == nil && sc.Root != "" && len(sc.Steps) > 0 {
+		return replaySeq(sc)
+	}
 	var c wcase
 	if err := json.Unmarshal(b, &c); err != nil || c.Root == "" {
 		fmt.Println("replay: no concrete input in file (", rp.Kind, rp.Broken, ")")
